@@ -124,7 +124,13 @@ func FuncUniverse(level int) (*Schema, *Helpers, []*StructDef) {
 		Fields: []Field{F("a", Tup(Ref(h.Om, OuterN(1)), OuterN(0)))}}
 	grid := &StructDef{Name: "u.grid", TypeName: "u.Grid", Tag: 0x30002002, NatParams: []string{"w", "h", "m"},
 		Fields: []Field{F("cells", Tup(Tup(RefBoxed(h.Om, OuterN(2)), OuterN(0)), OuterN(1)))}}
-	s.Structs = append(s.Structs, tom, grid)
+	// recursion through map-backed dictionaries (random filling must stay bounded by the depth limit there too)
+	dir := &StructDef{Name: "u.dir", TypeName: "u.Dir", Tag: 0x30002003, Fields: []Field{F("size", TInt)}}
+	dir.Fields = append(dir.Fields, F("entries", Dict(Ref(dir))))
+	dirn := &StructDef{Name: "u.dirn", TypeName: "u.Dirn", Tag: 0x30002004, Fields: []Field{F("v", TInt)}}
+	dirn.Fields = append(dirn.Fields, F("sub", DictAny(TInt, Ref(dirn))), F("tail", Vec(Ref(dirn))))
+	s.Structs = append(s.Structs, tom, grid, dir, dirn)
+	s.Tops = append(s.Tops, dir, dirn)
 	omTup := func(nIdx, mIdx int) *Type { return bx(Tup(Ref(h.Om, FieldN(mIdx)), FieldN(nIdx))) } // Tuple (u.om m) n
 	fx("fx1", omTup(0, 1), F("n", TNat), F("m", TNat))
 	fx("fx2", omTup(1, 0), F("m", TNat), F("n", TNat))
